@@ -699,6 +699,23 @@ def componentise(rng, d: Doc, p: float = 0.5) -> Doc:
             if isinstance(rb, dict) and "$ref" not in rb and rng.random() < p:
                 op["requestBody"] = share("requestBodies", rb, "SharedBody")
                 used = True
+    # one component parameter whose schema needs a generated class (array of an inline enum), referenced by several
+    # operations: whatever is derived from it must not depend on which operation the loader meets first
+    ops_nodes = [(pth, m, op) for pth, item in d.doc.get("paths", {}).items() for m, op in item.items()
+                 if isinstance(op, dict) and "responses" in op]
+    if len(ops_nodes) >= 2 and rng.random() < 0.6:
+        comps.setdefault("parameters", {})["SharedStatusFilter"] = {
+            "name": "statusFilter", "in": "query", "required": False,
+            "schema": {"type": "array", "items": {"type": "string", "enum": ["new", "in-progress", "done"]}}}
+        for pth, m, op in rng.sample(ops_nodes, rng.randint(2, min(3, len(ops_nodes)))):
+            if any(isinstance(x, dict) and x.get("name") == "statusFilter" for x in op.get("parameters", [])):
+                continue
+            op.setdefault("parameters", []).append({"$ref": "#/components/parameters/SharedStatusFilter"})
+            for e in d.ops:
+                if e["path"] == pth and e["method"] == m.upper():
+                    e["params"].append({"name": "statusFilter", "in": "query", "required": False, "kind": "array_enum_inline"})
+        d.features.add("shared_component_parameter")
+        used = True
     if used:
         d.features.add("component_refs")
     return d
